@@ -194,7 +194,7 @@ fn main() {
             "{id} [{PROFILE}/{}] seed={seed}: {} cases, {} distinct non-trivial, {} violations, {:.1}s",
             cx.tier_name(),
             res.acc.evaluations,
-            res.acc.nontrivial.len(),
+            res.acc.distinct_nontrivial(),
             res.acc.violations.len(),
             wall
         );
